@@ -13,11 +13,21 @@ from collections import defaultdict
 from .cfg import FnView, render, strip_ref, subexprs
 from . import rulelib as R
 
-READONLY_CALLS = (
-    "::fmt::", "::clone::Clone>::clone", "::cmp::", "::ops::Deref>::deref", "::len", "::is_empty", "::iter",
-    "::get", "::contains", "::as_ref", "::borrow::Borrow", "::hash::", "::to_string", "::to_owned", "::as_slice",
-    "::first", "::last", "::keys", "::values",
-)
+class _RO:
+    SUB = ("::fmt::", "::cmp::", "::hash::", "::borrow::Borrow")
+    # method names are matched as the last path segment only: `::iter` must not match `std::iter::Extend<T>>::extend`
+    METHODS = ("len", "is_empty", "iter", "get", "contains", "contains_key", "as_ref", "to_string", "to_owned", "as_slice",
+               "first", "last", "keys", "values", "clone", "deref")
+
+    def __iter__(self):
+        return iter(())
+
+    @staticmethod
+    def matches(nm):
+        return any(x in nm for x in _RO.SUB) or nm.rsplit("::", 1)[-1] in _RO.METHODS
+
+
+READONLY_CALLS = _RO()
 # &mut-taking std methods that do not change the receiver's observable value
 MUT_BUT_PURE = ("::iter_mut", "::as_mut", "::deref_mut", "::borrow_mut", "::get_mut", "::values_mut", "::as_deref_mut",
                 "::entry", "::last_mut", "::first_mut", "::index_mut")
@@ -122,10 +132,10 @@ class Effects:
                 for a in c.args:
                     if a.place is not None and a.place.is_local() and a.place.local in mutref:
                         cs |= mutref[a.place.local]
-                if cs and not any(x in nm for x in MUT_BUT_PURE) and not any(x in nm for x in READONLY_CALLS):
+                if cs and not any(x in nm for x in MUT_BUT_PURE) and not READONLY_CALLS.matches(nm):
                     # a local callee that receives &mut state: use its summary instead (more precise)
                     cal = self.prog.possible_callees(c, body)
-                    if cal and all(x.d.local for x in cal):
+                    if cal and all(x.d.local for x in cal) and not all(self._is_container_method(x) for x in cal):
                         pass  # handled by (c)
                     else:
                         out.append((bi, "T", cs, f"{nm.rsplit('::', 2)[-2] if '::' in nm else ''}::{nm.rsplit('::', 1)[-1]}(&mut state)", c.line))
@@ -136,6 +146,15 @@ class Effects:
                     mutref[c.dest.local] = set(cs)
         self._local[k] = out
         return out
+
+    def _is_container_method(self, callee):
+        """a method of one of the repository's own generic containers (OrderedSet, OrderedMap, ...) that takes `&mut self`:
+        inside it the receiver is just `self`, so its summary cannot name the monitored field it was handed - the call
+        site is the mutation"""
+        nm = callee.name
+        return callee.argc >= 1 and callee.ty(1).startswith("&mut ") and \
+            any(x in nm for x in ("OrderedSet", "OrderedMap", "UnorderedSet", "UnorderedMap")) and \
+            not any(x in nm for x in MUT_BUT_PURE)
 
     # ------------------------------------------------------------ summaries
     def summary(self, body, _stack=None):
